@@ -370,8 +370,10 @@ def sanitize_ir(_ir, frontend, pp_registry=None, pp_info=None):
         parser limitations and that should be re-inserted
     """
     # Apply postprocessing rules to re-insert information lost during preprocessing
+    # Note: each rule restores the source line it has seen, so the rules are undone
+    #       in the reverse of the order in which `sanitize_input` has applied them
     if pp_info is not None and pp_registry is not None:
-        for r_name, rule in pp_registry.items():
+        for r_name, rule in reversed(pp_registry.items()):
             info = pp_info.get(r_name, None)
             _ir = rule.postprocess(_ir, info)
 
